@@ -36,7 +36,16 @@ pub broadcast proof fn lemma_advance_trans(a: Seq<Option<u8>>, b: Seq<Option<u8>
         if i < consumed(a, b).len() { assert(consumed(a, b)[i] is Some); } else { assert(consumed(b, c)[i - consumed(a, b).len()] is Some); }
     }
 }
-pub broadcast group group_advance { lemma_advance_refl, lemma_advance_trans }
+// a read failure that is still pending after some delivered bytes were consumed was pending before
+pub broadcast proof fn lemma_fault_carries(a: Seq<Option<u8>>, b: Seq<Option<u8>>)
+    requires #[trigger] advance(a, b), #[trigger] has_fault(b),
+    ensures has_fault(a),
+{
+    reveal(has_fault);
+    let i = choose|i: int| 0 <= i < b.len() && !(#[trigger] b[i] is Some);
+    assert(a[a.len() - b.len() + i] == b[i]);
+}
+pub broadcast group group_advance { lemma_advance_refl, lemma_advance_trans, lemma_fault_carries }
 }
 pub mod jg {
 use vstd::prelude::*;
